@@ -367,6 +367,11 @@ def _check(case, res, sb):
                 KINDS[kind].decode(), p, (' Q$=%r' % q) if kind == 'NAME' else '', i,
                 [(x['k'], x.get('p', ''), x.get('q', '')) for x in case['ops']], cwd0)
             # ---- (0) escaped exceptions
+            if escaped is not None and escaped.exc == 'CaseTimeout':
+                # the runner's per-case wall limit fired inside the interpreter: inconclusive
+                res.inconclusive = True
+                res.label('case-wall-limit')
+                break
             if escaped is not None:
                 res.fail('escaped.%s@%s' % (escaped.exc, escaped.frame),
                          '%s -> %s\n%s' % (desc, escaped, escaped.tb))
